@@ -78,7 +78,7 @@ class ConfigModel:
         reg = {
             "flag": self._option_class("BoolCls", "flag", False),
             "num": self._option_class("IntCls", "num", 7),
-            "names": self._option_class("ListCls", "names", []),
+            "names": self._option_class("ListCls", "names", ["dflt"]),  # a non-empty built-in default: it is appended once, after everything configured
         }
         for c in ERROR_CODES:
             reg[c] = self._option_class("BoolCls", c, c not in DEFAULT_OFF)  # error codes are enabled by default, except the opt-in ones
